@@ -312,6 +312,19 @@ func main() {
 					emit("R %d %d %d -> P", f.sym, off, l)
 				} else {
 					emit("R %d %d %d -> D %s", f.sym, off, l, enc.RLE(res))
+					if r.Intn(3) == 0 {
+						// the caller keeps the result across another read (of any descriptor): it is the
+						// caller's, so it still holds what was returned (reported as the same read again)
+						g := rng.Pick(r, cand)
+						off2, l2 := uint64(r.Intn(30)), uint64(rng.Pick(r, []int{1, 10, 4096, 20000}))
+						var res2 []byte
+						if try(func() { res2 = a.ReadAt(g.real, off2, l2) }) {
+							emit("R %d %d %d -> P", g.sym, off2, l2)
+						} else {
+							emit("R %d %d %d -> D %s", g.sym, off2, l2, enc.RLE(res2))
+						}
+						emit("R %d %d %d -> D %s", f.sym, off, l, enc.RLE(res))
+					}
 					for j := range res { // mutate the returned slice
 						res[j] ^= 0x77
 					}
